@@ -26,7 +26,8 @@ Section SExprInd.
           (HIndex : forall l i, P l -> P i -> P (EIndex l i))
           (HSlice : forall l s e, P l -> opt_holds P s -> opt_holds P e -> P (ESlice l s e))
           (HDot : forall l, P l -> P (EDot l))
-          (HAssert : forall e t, P e -> P (EAssert e t)).
+          (HAssert : forall e t, P e -> P (EAssert e t))
+          (HLoop : forall r, P r -> P (ELoopVar r)).
   Fixpoint sexpr_ind (e : expr) : P e :=
     let lind := fix go (l : list expr) : Forall P l :=
       match l with [] => Forall_nil _ | x :: r => Forall_cons _ (sexpr_ind x) (go r) end in
@@ -44,6 +45,7 @@ Section SExprInd.
     | ESlice l s e' => HSlice l s e' (sexpr_ind l) (oind s) (oind e')
     | EDot l => HDot l (sexpr_ind l)
     | EAssert a t => HAssert a t (sexpr_ind a)
+    | ELoopVar r => HLoop r (sexpr_ind r)
     end.
 End SExprInd.
 
@@ -74,6 +76,7 @@ Fixpoint uniform (e : expr) : bool :=
   | ESlice l s e' => uniform l && opt s && opt e'
   | EDot l => not_empty_base l && uniform l && match spec_tc (EDot l) with Some (_, t) => closed t | None => true end
   | EAssert a t => closed t && uniform a
+  | ELoopVar _ => false      (* the loop variable as a value (C04's ELoopVar): outside; StaticTypes.erase never produces it *)
   end.
 
 Fixpoint uniforms (l : list expr) : bool := match l with [] => true | x :: r => uniform x && uniforms r end.
@@ -271,7 +274,7 @@ Qed.
 (* ---------- the whole-expression theorem ---------- *)
 Theorem tc_uniform : forall e, tc_ok e.
 Proof.
-  induction e as [| | |t|t|els H|els H|op e1 e2 IHe1 IHe2|op e IHe|e IHe|e1 e2 IHe1 IHe2|e1 o1 o2 IHe1 IHo1 IHo2|e IHe|e t IHe]
+  induction e as [| | |t|t|els H|els H|op e1 e2 IHe1 IHe2|op e IHe|e IHe|e1 e2 IHe1 IHe2|e1 o1 o2 IHe1 IHo1 IHo2|e IHe|e t IHe|r IHr]
     using sexpr_ind; intros Hu k s0 Hs.
   - inversion Hs; subst. exists (NLeaf TNum). repeat split; try reflexivity; discriminate.
   - inversion Hs; subst. exists (NLeaf TString). repeat split; try reflexivity; discriminate.
@@ -414,6 +417,8 @@ Proof.
     rewrite Hv. eexists. split; [reflexivity|].
     split; [simpl; rewrite (proj1 (fixed_type_keeps _)); apply spec_embed|].
     split; [simpl; rewrite erase_fixed_type; apply erase_embed|discriminate].
+  - (* loop variable: outside the fragment *)
+    discriminate Hu.
 Qed.
 
 (* ====================================================================== *)
@@ -634,7 +639,7 @@ Qed.
 
 Theorem tc_uniform_conv : forall e, tc_def e.
 Proof.
-  induction e as [| | |t|t|els H|els H|op e1 e2 IHe1 IHe2|op e IHe|e IHe|e1 e2 IHe1 IHe2|e1 o1 o2 IHe1 IHo1 IHo2|e IHe|e t IHe]
+  induction e as [| | |t|t|els H|els H|op e1 e2 IHe1 IHe2|op e IHe|e IHe|e1 e2 IHe1 IHe2|e1 o1 o2 IHe1 IHo1 IHo2|e IHe|e t IHe|r IHr]
     using sexpr_ind; intros Hu n Hn; try (simpl; eauto; fail).
   - (* array literal *)
     rewrite uniform_EArr in Hu. apply andb_true_iff in Hu as [Hu1 _]. cbn [tc] in Hn.
@@ -742,6 +747,8 @@ Proof.
     rewrite (is_any_erase _ L1), L2 in Hv2. apply sty_eqb_eq in Hv2. subst a.
     rewrite (is_any_erase _ (spec_embed t)), erase_embed in Hv1. rewrite Hv1. simpl.
     rewrite Hct. eauto.
+  - (* loop variable: outside the fragment *)
+    discriminate Hu.
 Qed.
 
 (* the two directions together: on the uniform fragment the implementation builds a node without
